@@ -11,6 +11,7 @@ from pbt.samples import call, raised, native
 
 ID = 'C01'
 LEVEL = 'exploration'
+ENGINES = ['hypothesis', 'curated layouts (8-digit offsets)']
 RULE = ('Hypothesis draws an event matrix (0..40 events x 1..6, sometimes 7..12, parameters; cells from {0, 2^w-1, 2^(w-1), '
         'alternating-bit patterns, range-1, range, uniform} for integers, IEEE bit patterns incl. +-0, subnormals, '
         '+-inf, extremes for floats) and a layout: version {2.0,3.0,3.1} x datatype {I,F,D} x byte order (both '
@@ -131,6 +132,40 @@ def _unsupported(draw):
 
 def strategy(tier):
     return st.one_of(_layout(), _layout(), _layout(), _layout(), _unsupported())
+
+
+# ----------------------------------------------------------------------------------------------
+# curated layouts: DATA far into the file, so that the 8-character HEADER fields are completely filled
+# (offsets of 8 digits) or cannot hold the offsets at all (FCS3.x: zeros in the HEADER, offsets in TEXT)
+# ----------------------------------------------------------------------------------------------
+
+def curated(tier):
+    jobs = []
+    base = dict(byteord='1,2,3,4', little=True, delim='/', pad_seed=None, trail=0, blank_analysis=False)
+    ev16 = [[1, 65535, 258], [40000, 0, 513], [7, 8, 9]]
+    for version, offsets_in, gap in (('FCS2.0', 'header', 10 ** 7), ('FCS3.0', 'header', 10 ** 7 + 12345),
+                                     ('FCS3.1', 'text', 10 ** 7), ('FCS3.0', 'header', 99999000)) + (
+                                    (('FCS3.1', 'text', 10 ** 8 + 77),) if tier == 'thorough' else ()):
+        for end_plus_one in (False, True):
+            jobs.append(dict(base, version=version, datatype='I', widths=[16, 16, 16], ranges=[65536, 65536, 1024],
+                             events=ev16, offsets_in=offsets_in, end_plus_one=end_plus_one, pad=[3, gap, 5],
+                             curated='far_data'))
+    return jobs
+
+
+def exhaustive_jobs(tier):
+    return curated(tier)
+
+
+def run_job(job):
+    from pbt.runner import Obs
+    obs = Obs()
+    try:
+        check(job, obs)
+    except Exception as e:
+        obs.failures.append(('crash', 'curated layout: %s: %s' % (type(e).__name__, e)))
+    return dict(evaluations=1, nontrivial=1, failures=[(t, m, job) for t, m in obs.failures[:5]],
+                labels={'curated:far_data': 1}, claims=dict(obs.claims), samples=[], complete=True)
 
 
 def _write(spec, name):
